@@ -5,6 +5,7 @@ import (
 	stdjson "encoding/json"
 	"fmt"
 	"reflect"
+	"strconv"
 	"strings"
 	"testing"
 
@@ -51,7 +52,16 @@ func genJSON(t *rapid.T, depth int) string {
 		return sb.String()
 	}
 	num := func() string {
-		switch rapid.IntRange(0, 6).Draw(t, "nk") {
+		switch rapid.IntRange(0, 8).Draw(t, "nk") {
+		case 7:
+			// the shortest decimal text of an arbitrary float64 (15-17 significant digits, no exponent)
+			f := rapid.Float64Range(-1e6, 1e6).Draw(t, "f64")
+			return strconv.FormatFloat(f, 'f', -1, 64)
+		case 8:
+			// 16-19 significant digits written out
+			ip := rapid.Int64Range(0, 999999999).Draw(t, "longIP")
+			fp := rapid.Int64Range(0, 9999999999).Draw(t, "longFP")
+			return fmt.Sprintf("%d.%010d", ip, fp)
 		case 0:
 			return "0"
 		case 1:
@@ -134,7 +144,7 @@ func genC16(t *rapid.T) interface{} {
 		case 3:
 			// hostile extras: only "no panic" plus the two-reference rule below
 			i := rapid.IntRange(0, len(doc)).Draw(t, "hi")
-			c.Doc = []byte(doc[:i] + rapid.SampledFrom([]string{"\"\\/\"", "\"\\ud800\"", "\"\xff\"", "1e999", "123456789012345678901234567890", "\"\\q\"", "\"\n\"", "\"\\u12\"", ".5", "01", "+1", "0x1F", "tru", "nul", "\f"}).Draw(t, "hostile") + doc[i:])
+			c.Doc = []byte(doc[:i] + rapid.SampledFrom([]string{"\"\\/\"", "\"\\ud800\"", "\"\xff\"", "1e999", "123456789012345678901234567890", "\"\\q\"", "\"\n\"", "\"\\u12\"", ".5", "01", "+1", "0x1F", "tru", "nul", "\f", "\v", "\v", "\x00", "\r", "\u0085", "\u00a0", "\u2028", "\ufeff"}).Draw(t, "hostile") + doc[i:])
 		default:
 			i := rapid.IntRange(0, len(doc)-1).Draw(t, "di")
 			c.Doc = []byte(doc[:i] + doc[i+1:])
